@@ -396,7 +396,9 @@ def callback_table_cxx(ctx, crate, cx):
             assigns = cxx.walk(f, lambda n: n.get("kind") in ("CXXOperatorCallExpr", "BinaryOperator"))
             oko = any("result" in refs(a) for a in assigns)
         else:
-            oko = bool(cxx.walk(f, lambda n: n.get("kind") == "ReturnStmt"))
+            ret_ty = f.get("type", {}).get("qualType", "").split("(")[0].strip()
+            # a void callback (sort_candidates) has nothing to hand back: `return p->sort(..);` and `p->sort(..);` are the same
+            oko = bool(cxx.walk(f, lambda n: n.get("kind") == "ReturnStmt")) or ret_ty == "void"
         ctx.ob(R, "private_api::bridge_" + m, "calls-%s-with-params-in-order" % m, okm and okr and oka and oko, "cpp/include/resolvo_dependency_provider.h",
                "calls %s on %s with %s; out/return ok=%s" % (called[:1], "data-cast" if okr else "?", argrefs, oko))
 
@@ -1478,8 +1480,13 @@ def string_lifecycle_cxx(ctx, cx):
         if not body:
             continue
         sig = m.get("type", {}).get("qualType", "")
-        sts = _kids(body[0])
-        d_idx = [k for k, st in enumerate(sts) if _contains_call(st, "resolvo_string_drop")]
+        # the block that directly contains the drop statement (the body itself, or the branch of a self-assignment guard)
+        sts, d_idx = _kids(body[0]), []
+        for cs_ in cxx.walk(body[0], lambda y: y.get("kind") == "CompoundStmt"):
+            ks_ = _kids(cs_)
+            di = [k for k, st in enumerate(ks_) if st.get("kind") != "IfStmt" and st.get("kind") != "CompoundStmt" and _contains_call(st, "resolvo_string_drop")]
+            if di:
+                sts, d_idx = ks_, di
         if d_idx:
             after = sts[d_idx[0] + 1:]
             re_init = any(_contains_call(st, "resolvo_string_clone") or _contains_call(st, "resolvo_string_from_bytes") for st in after[:1])
